@@ -1,3 +1,94 @@
-From Verif Require Import model.Resampler.
-Theorem C07_placeholder : True. Proof. exact I. Qed.
-Print Assumptions C07_placeholder.
+(* C07 — Resampled timeline is aligned, gap-free and shared by all series.
+   Statements only; every proof is `exact <lemma>` from proofs/ResamplerTimeline.v. *)
+From Coq Require Import Lia.
+From Verif Require Import model.Resampler proofs.ResamplerTimeline.
+
+(* The function the model runs is `Resampler._calculate_window_end` as translated from /repo. *)
+Theorem C07_window_end_as_translated : forall now period align,
+  window_end now period align = window_end_spec now period align.
+Proof. exact window_end_as_translated. Qed.
+
+(* First window end w for creation instant [now]:  now + period <= w < now + 2*period (so "no earlier than
+   creation, no later than two periods after it"); the timer is armed for exactly w; w = now + period when
+   align_to is None, otherwise w is on the grid align_to + k*period and is the first grid point >= now + period. *)
+Theorem C07_first : forall now period align,
+  0 < period ->
+  let we := window_end now period align in
+  now + period <= fst we < now + 2 * period /\
+  0 <= snd we < period /\
+  first_tick_at now period we = fst we /\
+  match align with
+  | None => fst we = now + period
+  | Some a => (fst we - a) mod period = 0 /\
+              forall g, (g - a) mod period = 0 -> now + period <= g -> fst we <= g
+  end.
+Proof. exact window_end_first_translated. Qed.
+
+(* The k-th tick (the tick after any prefix [pre] containing k ticks, whatever else happened: additions,
+   removals, failing sinks, stopped sources, any lateness) hands w + k*period to every registered live series
+   and nothing else to anybody. *)
+Theorem C07_kth : forall period st pre late fail dead post,
+  let es := pre ++ Tick late fail dead :: post in
+  let o := nth (length pre) (rrun period st es) ([], false) in
+  let stk := rfinal period st pre in
+  (forall s t, In (s, t) (fst o) -> t = r_wend st + Z.of_nat (nticks pre) * period) /\
+  (forall s, In s (r_series stk) -> ~ In s dead -> In (s, r_wend st + Z.of_nat (nticks pre) * period) (fst o)).
+Proof. exact kth_tick. Qed.
+
+(* No tick skipped, duplicated or reordered: a series that stays registered receives
+   w, w + period, ..., one per tick, for every event sequence. *)
+Theorem C07_no_skip_dup : forall period es st s,
+  NoDup (r_series st) -> In s (r_series st) -> never_removed s es ->
+  emitted s (rrun period st es) = map (fun k => r_wend st + Z.of_nat k * period) (seq 0 (nticks es)).
+Proof. exact no_skip_no_dup. Qed.
+
+(* ... independent of the lateness labels on the ticks *)
+Theorem C07_lateness_irrelevant : forall period es st,
+  rrun period st (map unlabel es) = rrun period st es /\
+  rfinal period st (map unlabel es) = rfinal period st es.
+Proof. exact labels_irrelevant. Qed.
+
+(* All series resampled together receive the same timestamp. *)
+Theorem C07_shared : forall period st es o s1 t1 s2 t2,
+  In o (rrun period st es) -> In (s1, t1) (fst o) -> In (s2, t2) (fst o) -> t1 = t2.
+Proof. exact shared_timestamp. Qed.
+
+(* The increment happens on the ResamplingError path too. *)
+Theorem C07_error_path : forall period st late fail dead,
+  let '(st', (outs, raised)) := rstep period st (Tick late fail dead) in
+  r_wend st' = r_wend st + period /\ r_series st' = r_series st /\
+  (raised = true <-> exists s, In s (r_series st) /\ (In s fail \/ In s dead)).
+Proof. exact error_path. Qed.
+
+(* From creation: every timestamp ever handed to any sink is w0 + k*period, k >= 0, on the align_to grid
+   (or on the grid of the creation instant), never before creation + period. *)
+Theorem C07_timeline : forall now period align es o s t,
+  0 < period ->
+  let we := window_end now period align in
+  In o (rrun period (rinit now period align we) es) -> In (s, t) (fst o) ->
+  (exists k, 0 <= k /\ t = fst we + k * period) /\
+  now + period <= t /\
+  match align with Some a => (t - a) mod period = 0 | None => (t - now) mod period = 0 end.
+Proof. exact timeline_from_creation_translated. Qed.
+
+(* non-vacuity: creation 250 ms after a grid point, 1 s period, epoch alignment; two series, one added late,
+   one failing sink, a tick three periods late: timestamps 2 s, 3 s, 4 s on the grid; raised exactly once *)
+Example C07_nonvacuous :
+  let now := 1700000000250000 in
+  let we := window_end now 1000000 (Some 0) in
+  we = (1700000002000000, 750000) /\
+  rrun 1000000 (rinit now 1000000 (Some 0) we)
+       [Add 1; Tick 0 [] []; Add 2; Tick 3000000 [2] []; Remove 2; Tick 0 [] []] =
+  [([], false); ([(1, 1700000002000000)], false); ([], false);
+   ([(1, 1700000003000000); (2, 1700000003000000)], true); ([], false);
+   ([(1, 1700000004000000)], false)].
+Proof. vm_compute. split; reflexivity. Qed.
+
+Print Assumptions C07_window_end_as_translated.
+Print Assumptions C07_first.
+Print Assumptions C07_kth.
+Print Assumptions C07_no_skip_dup.
+Print Assumptions C07_lateness_irrelevant.
+Print Assumptions C07_shared.
+Print Assumptions C07_error_path.
+Print Assumptions C07_timeline.
